@@ -41,6 +41,10 @@ type HJKYResult[G algebra.PrimeGroupElement[G, S], S algebra.PrimeFieldElement[S
 	Shares   map[ID]*feldman.Share[S]
 	VV       map[ID][]G // each party's view of the summed verification vector
 	DealerVV map[ID][]G // each dealer's broadcast vector
+	// outputs of EVERY party that completed round 2, also when another party failed (Shares / VV are
+	// set only when all completed)
+	ReleasedShares map[ID]*feldman.Share[S]
+	ReleasedVV     map[ID][]G
 }
 
 type hjkyOut[G algebra.PrimeGroupElement[G, S], S algebra.PrimeFieldElement[S]] struct {
@@ -73,6 +77,14 @@ func runHJKY[G algebra.PrimeGroupElement[G, S], S algebra.PrimeFieldElement[S]](
 			s, v, err := p.Round2(bi[id], ui[id])
 			return hjkyOut[G, S]{s, v}, err
 		})
+		// Released*: outputs of the parties that completed, also when another party failed in this round
+		res.ReleasedShares, res.ReleasedVV = map[ID]*feldman.Share[S]{}, map[ID][]G{}
+		for id, o := range out {
+			res.ReleasedShares[id] = o.share
+			if o.vv != nil {
+				res.ReleasedVV[id] = vvPoints[G](o.vv.Value())
+			}
+		}
 		if !ok {
 			return
 		}
@@ -123,6 +135,12 @@ func runRedistribute[G algebra.PrimeGroupElement[G, S], S algebra.PrimeFieldElem
 		r2b, r2u := splitPairs(r2)
 		b3i, u3i := routeB[B2, P](n, 2, ids, r2b), routeU[U2, P](n, 2, ids, r2u)
 		out, ok := stepAll(n, 3, ps, func(id ID, p P) (*mpc.BaseShard[G, S], error) { return p.Round3(b3i[id], u3i[id]) })
+		res.Released = map[ID]*mpc.BaseShard[G, S]{}
+		for id, sh := range out {
+			if sh != nil {
+				res.Released[id] = sh
+			}
+		}
 		if ok {
 			res.Shards = map[ID]*mpc.BaseShard[G, S]{}
 			for id, sh := range out {
